@@ -15,7 +15,8 @@ class CustomError(Exception):
     pass
 
 
-for _e in (ValueError, TypeError, KeyError, RuntimeError, RecursionError, CustomError, ArithmeticError):
+for _e in (ValueError, TypeError, KeyError, RuntimeError, RecursionError, CustomError, ArithmeticError,
+           StopIteration, StopAsyncIteration, AssertionError, NotImplementedError, UnicodeError, UserWarning):
     EXC_CLASSES[_e.__name__] = _e
 
 
@@ -23,11 +24,21 @@ class Abort(BaseException):
     """not an Exception: escapes every printer-failure handler (like KeyboardInterrupt)"""
 
 
-class GObj:
+class GBase:
+    pass
+
+
+class GObj(GBase):
     """object with a registered printer pretty_call(ctx, target, *args)"""
     def __init__(self, cname, idx, fault='none', exc='ValueError'):
         self.cname, self.idx, self.fault, self.exc = cname, idx, fault, exc
         self.args = []
+
+
+class GObjP(GBase):
+    """the same, but its printer is registered through a PREDICATE (objects with an index divisible by 3);
+    NOT a subclass of GObj: a class registration anywhere in the MRO would win over the predicate"""
+    __init__ = GObj.__init__
 
 
 class Marker:
@@ -50,6 +61,10 @@ def ensure_registered():
             return 'boom-%d' % value.idx
         return 'boom-%d {field} {} {0 } %%s %%(x)s \\ \n {{' % value.idx
 
+    def is_pred_obj(value):
+        return type(value) is GObjP
+
+    @register_pretty(predicate=is_pred_obj)
     @register_pretty(GObj)
     def gobj_printer(value, ctx):
         if value.fault == 'raise':
@@ -58,6 +73,9 @@ def ensure_registered():
             raise Abort('abort-%d' % value.idx)
         if value.fault == 'nondoc':
             return 42
+        # printers thread their own state to their children through the public context API
+        if value.idx % 2:
+            ctx = ctx.assoc('gobj-level', ctx.get('gobj-level', 0) + 1).assoc('owner', value.idx)
         doc = pretty_call(ctx, valgen.call_target(value.cname), *value.args)
         if value.fault == 'after':
             raise EXC_CLASSES[value.exc](boom(value))
@@ -83,7 +101,7 @@ def build(heap):
         elif n[0] == 'dict':
             objs[i] = {}
         elif n[0] == 'user':
-            objs[i] = GObj(n[1], i, n[2], n[4] if len(n) > 4 else 'ValueError')
+            objs[i] = (GObjP if i % 3 == 0 else GObj)(n[1], i, n[2], n[4] if len(n) > 4 else 'ValueError')
     for i, n in enumerate(heap):
         if n[0] == 'tuple':
             assert all(heap[r][0] != 'tuple' or r < i for r in n[1])
@@ -150,17 +168,46 @@ def dedupe_keys(heap):
     return out
 
 
+RUN_TIMEOUT = 60
+MAX_TIMEOUTS = 3
+TIMEOUTS = [0]
+
+
+class RunTimeout(BaseException):
+    pass
+
+
+def _alarm(_s, _f):
+    raise RunTimeout()
+
+
 def run_impl(obj, cfg):
-    """-> (text | 'EXC <type>', [warning messages])"""
+    """-> (text | 'EXC <type>', [warning messages]); 'EXC RunTimeout' when the call does not return within
+    RUN_TIMEOUT seconds; after MAX_TIMEOUTS such calls nothing more is printed ('EXC skipped')"""
+    import signal
+    import threading
     from prettyprinter import pformat
+    if TIMEOUTS[0] >= MAX_TIMEOUTS:
+        return 'EXC skipped-after-timeouts', []
+    use_alarm = threading.current_thread() is threading.main_thread()
     with warnings.catch_warnings(record=True) as ws:
         warnings.simplefilter('always')
+        if use_alarm:
+            old = signal.signal(signal.SIGALRM, _alarm)
+            signal.setitimer(signal.ITIMER_REAL, RUN_TIMEOUT)
         try:
             out = pformat(obj, **cfg)
         except Exception as e:
             out = 'EXC %s' % type(e).__name__
         except Abort:
             out = 'ABORTED'
+        except RunTimeout:
+            out = 'EXC RunTimeout'
+            TIMEOUTS[0] += 1
+        finally:
+            if use_alarm:
+                signal.setitimer(signal.ITIMER_REAL, 0)
+                signal.signal(signal.SIGALRM, old)
     return out, [str(w.message) for w in ws]
 
 
@@ -197,7 +244,8 @@ def warning_keys(msgs, objs):
             out.append('other:' + m[:40])
             continue
         b = BOOM.findall(m)
-        if b and 'gobj_printer' in m.split('raised an exception')[0]:
+        head = m.split('raised an exception')[0]
+        if b and ('gobj_printer' in head or '_repr_pretty' in head):   # predicate printers run inside _repr_pretty
             out.append(int(b[-1]))
         else:
             mt = re.match(r'The pretty printer for (\w+),', m)
@@ -231,8 +279,8 @@ def unfold(o, ancestors, failing=None):
         return tuple(unfold(x, anc, failing) for x in o)
     if type(o) is dict:
         return {unfold(k, anc, failing): unfold(v, anc, failing) for k, v in o.items()}
-    if isinstance(o, GObj):
-        c = GObj(o.cname, o.idx)
+    if isinstance(o, GBase):
+        c = type(o)(o.cname, o.idx)
         c.args = [unfold(x, anc, failing) for x in o.args]
         if len(o.args) == 1 and type(o.args[0]) in (list, dict, tuple) and isinstance(c.args[0], Marker):
             # pretty_call hugs a sole list/dict/tuple argument by the TYPE of the object: f(<text>)
